@@ -113,7 +113,7 @@ func init() {
 	register(&Prop{
 		ID:         "C07",
 		Title:      "Update expressions apply exactly their actions and nothing else",
-		Decided:    "(R1) the update parser, the action dispatch and the clause-continuation list agree on the four actions SET, ADD, REMOVE, DELETE, and + / − are the only arithmetic operators; (R2) per action, the effects reachable from its handler are the ones the action may have: SET assigns (attribute or path), REMOVE removes, ADD adds to a number/set or creates the attribute only when it is undefined, DELETE removes set members and never creates an attribute; (R3) on a left-hand side the handler does not support, every handler returns an error object – never a silent success without effect; (R4) the working environment is applied to the item only after parse and evaluation succeeded (shared with C08.R2); (R5) 'removed means gone': when the environment is written back, attributes of the item that the environment no longer holds are deleted; (R6) 'nothing else changed': only attributes targeted by an action are written back; (R7) '+' computes left + right and '−' left − right, in that order; (R8) every right-hand side reads the pre-update item (two-phase evaluation); (R9) because the write-back re-serialises every attribute (R6), an untouched attribute keeps its type only if every object kind writes its type-carrying field non-nil, also when empty (= C10.R7 on the object side); (R10) the functions usable in an update (list_append, if_not_exists, …) and the arithmetic of SET build new objects: none of them stores into an object it received as an operand, because operands are the environment's own objects of OTHER attributes; (R12) if_not_exists keeps an existing attribute of type NULL: existence is decided by the undefined test (= C06.R5 at that function).",
+		Decided:    "(R1) the update parser, the action dispatch and the clause-continuation list agree on the four actions SET, ADD, REMOVE, DELETE, and + / − are the only arithmetic operators; (R2) per action, the effects reachable from its handler are the ones the action may have: SET assigns (attribute or path), REMOVE removes, ADD adds to a number/set or creates the attribute only when it is undefined, DELETE removes set members and never creates an attribute; (R3) on a left-hand side the handler does not support, every handler returns an error object – never a silent success without effect; (R4) the working environment is applied to the item only after parse and evaluation succeeded (shared with C08.R2); (R5) 'removed means gone': when the environment is written back, attributes of the item that the environment no longer holds are deleted; (R6) 'nothing else changed': only attributes targeted by an action are written back; (R7) '+' computes left + right and '−' left − right, in that order; (R8) every right-hand side reads the pre-update item (two-phase evaluation); (R9) because the write-back re-serialises every attribute (R6), an untouched attribute keeps its type only if every object kind writes its type-carrying field non-nil, also when empty (= C10.R7 on the object side); (R10) the functions usable in an update (list_append, if_not_exists, …) and the arithmetic of SET build new objects: none of them stores into an object it received as an operand, because operands are the environment's own objects of OTHER attributes; (R12) if_not_exists keeps an existing attribute of type NULL: existence is decided by the undefined test (= C06.R5 at that function); (R14) an attribute may be named like an alias key of the request (\"#s\"): loading the item into the environment and writing it back use the attribute names as they are – neither reaches a lookup in an alias table, otherwise such an attribute is confused with, or renamed to, the attribute the alias stands for.",
 		NotDecided: "the resulting values themselves: list_append / if_not_exists results, nested path semantics, set arithmetic, number formatting (C12).",
 		Rules: []RuleDef{
 			{ID: "R1", Desc: "the four actions agree across parser, dispatch and continuation list (T-TABLE)", Run: c07R1},
@@ -145,6 +145,7 @@ func init() {
 			{ID: "R10", Desc: "functions of the update grammar do not modify their operands (T-PURE)", Run: c07R10},
 			{ID: "R11", Desc: "SET stores a copy of its operand, not the operand's own object (T-COPY)", Run: c07R11},
 			{ID: "R12", Desc: "if_not_exists decides existence with the undefined test, not the NULL tag (= C06.R5)", Run: aliasRule("R12", c06R5, func(c string) bool { return strings.Contains(strings.ToLower(c), "ifnotexists") })},
+			{ID: "R14", Desc: "the item is loaded into and written back from the environment under literal attribute names (no alias resolution)", Run: c07R14},
 		},
 	})
 }
@@ -963,4 +964,47 @@ func (e *Engine) isAssertOK(v ssa.Value, depth int) bool {
 		return some
 	}
 	return false
+}
+
+// c07R14: Environment.Set/Get/Remove resolve the request's aliases. The two functions that move whole items in and out of
+// the environment must not: AddAttributes (names of stored attributes and of placeholders) and Apply (names of the
+// store's entries, which are attribute names already).
+func c07R14(e *Engine) {
+	aliasesF := e.field("lang", "Environment", "Aliases")
+	for _, name := range []string{"Environment.AddAttributes", "Environment.Apply"} {
+		fn := e.fn("lang", name)
+		if !e.anchor("R14", "lang."+name, fn == nil || aliasesF == nil) {
+			continue
+		}
+		bad := ""
+		for g := range e.reach(fn) {
+			if e.fnRole(g) != "lang" {
+				continue
+			}
+			// object conversions (ToDynamoDB / MapToObject) are not name handling; only look at Environment methods
+			if g != fn && (g.Signature.Recv() == nil || namedOf(g.Signature.Recv().Type()) == nil || namedOf(g.Signature.Recv().Type()).Obj().Name() != "Environment") {
+				continue
+			}
+			instrs(g, func(in ssa.Instruction) {
+				lk, ok := in.(*ssa.Lookup)
+				if !ok {
+					return
+				}
+				if f, _ := loadedField(lk.X); f == aliasesF {
+					bad = "an alias lookup in " + e.fname(g) + " at " + e.ipos(in)
+				}
+				if p, isP := strip(lk.X).(*ssa.Parameter); isP && g == fn {
+					if mt, isMap := p.Type().Underlying().(*types.Map); isMap && isStringType(mt.Key()) && isStringType(mt.Elem()) {
+						bad = "a lookup in the alias table handed in as " + p.Name() + " at " + e.ipos(in)
+					}
+				}
+			})
+		}
+		construct := "lang." + name + ":literal-names"
+		if bad != "" {
+			e.fail("R14", construct, e.pos(fn.Pos()), "%s: an attribute literally named like an alias key (\"#s\") is stored under, or renamed to, the attribute that alias stands for – conditions see the wrong value and an unrelated update rewrites the item", bad)
+		} else {
+			e.pass("R14", construct, e.pos(fn.Pos()), "no alias table is consulted while whole items are moved in or out of the environment")
+		}
+	}
 }
